@@ -59,6 +59,7 @@ Print Assumptions C07_extract_bands.
 
 Theorem C07_bands_count : forall nchans_sel cps, bands_count nchans_sel cps = nchans_sel / cps.
 Proof. reflexivity. Qed.
+Print Assumptions C07_bands_count.
 
 (** block means: [divcast] is "true division then cast to the output dtype" (C14 fixes it for integer dtypes);
     floor(nsamps/tfactor) output rows, the incomplete remainder dropped, for every gulp *)
